@@ -144,9 +144,15 @@ type Exec struct {
 	// OnBoundary is called after commit, rollback, failed commit and reopen with the kind of boundary.
 	OnBoundary func(x *Exec, kind string) *Fail
 
-	Mon      *Monitor
-	LastKind string // kind of the most recent boundary
-	opening  bool
+	Mon *Monitor
+	Tap *Tap
+	// crash/fault enumeration support
+	PrevCommitted *refmodel.Node // model before the most recent successful commit
+	PreImage      []byte         // file content when the current/most recent write tx began (if KeepPre)
+	KeepPre       bool
+	TxLogStart    int    // index into Tap.Log where the current/most recent write tx began
+	LastKind      string // kind of the most recent boundary
+	opening       bool
 
 	keep [][]byte // values handed to Put stay alive and untouched
 }
@@ -207,7 +213,8 @@ func (x *Exec) ValBytes(class string) []byte {
 // NewExec opens (creating if needed) the database at path with cfg. model is the expected committed content
 // (nil = empty database).
 func NewExec(path string, cfg Cfg, model *refmodel.Node) (*Exec, *Fail) {
-	x := &Exec{Path: path, Cfg: cfg, CheckLvl: 1, Backward: true}
+	x := &Exec{Path: path, Cfg: cfg, CheckLvl: 1, Backward: true, Tap: &Tap{}}
+	SetTap(x.Tap)
 	if model == nil {
 		model = refmodel.New()
 	}
@@ -366,6 +373,10 @@ func (x *Exec) Do(op Op) (f *Fail) {
 		if x.W != nil {
 			return mm("harness: write tx already open")
 		}
+		if x.KeepPre {
+			x.PreImage = x.FileBytes()
+		}
+		x.TxLogStart = len(x.Tap.Log)
 		tx, err := x.DB.Begin(true)
 		if x.Cfg.ReadOnly {
 			if ErrName(err) != "ErrDatabaseReadOnly" {
@@ -410,6 +421,7 @@ func (x *Exec) Do(op Op) (f *Fail) {
 		if x.Mon != nil {
 			prev = x.Mon.PageSets[x.CommittedID]
 		}
+		x.PrevCommitted = x.Committed
 		x.Committed, x.WM = x.WM, nil
 		x.CommittedID++
 		if x.Mon != nil {
